@@ -128,6 +128,18 @@ func rewriteSelect(sel *ast.SelectStmt, label *ast.Ident) ast.Stmt {
 	return &ast.BlockStmt{List: append(pre, sw)}
 }
 
+func isConstExpr(e ast.Expr) bool {
+	switch x := unparen(e).(type) {
+	case *ast.BasicLit:
+		return true
+	case *ast.Ident:
+		return x.Name == "nil" || x.Name == "true" || x.Name == "false"
+	case *ast.UnaryExpr:
+		return x.Op != token.ARROW && x.Op != token.AND && isConstExpr(x.X)
+	}
+	return false
+}
+
 func unparen(e ast.Expr) ast.Expr {
 	for {
 		p, ok := e.(*ast.ParenExpr)
@@ -271,6 +283,12 @@ func process(path string) ([]byte, error) {
 			pre = append(pre, define(fn, callx.Fun))
 			var args []ast.Expr
 			for _, a := range callx.Args {
+				// constants need no early evaluation, and binding them to a
+				// temporary would give them their default type
+				if isConstExpr(a) {
+					args = append(args, a)
+					continue
+				}
 				id := tmp("a")
 				pre = append(pre, define(id, a))
 				args = append(args, id)
